@@ -140,8 +140,9 @@ def tag_of(text):
     return text[i + 1:j] if i >= 0 and j > i + 1 else '?'
 
 
-def impl_run(names):
-    """-> (issued, [sleep ms], outcome string, raw result for the oracle)"""
+def impl_run(names, node=None):
+    """-> (issued, [sleep ms], outcome string, raw result for the oracle); `node`: an RpcNode that already served earlier
+    requests (the retry budget and the back-off schedule belong to one request, not to the node object)"""
     from types import SimpleNamespace
     import pytezos.rpc.errors  # noqa: F401  (registers the error classes, as any client does)
     from pytezos.rpc import node as node_mod
@@ -162,7 +163,7 @@ def impl_run(names):
     ret = exc = None
     try:
         try:
-            ret = node_mod.RpcNode('http://node').request('GET', 'chains/main/blocks/head')
+            ret = (node or node_mod.RpcNode('http://node')).request('GET', 'chains/main/blocks/head')
         except Exception as e:  # canonicalised below
             exc = e
     finally:
@@ -319,8 +320,16 @@ def run(ctx):
     model = ctx.model(lines)
     seen_fail = set()
     shrunk = 0
+    from pytezos.rpc import node as _node_mod
+    shared = {'node': None, 'served': 0}
     for idx, c in enumerate(cases):
-        issued, sleeps, out, raw = impl_run(c)
+        use_shared = idx % 3 == 1
+        if use_shared and (shared['node'] is None or shared['served'] >= 40):
+            shared['node'], shared['served'] = _node_mod.RpcNode('http://node'), 0
+        issued, sleeps, out, raw = impl_run(c, shared['node'] if use_shared else None)
+        if use_shared:
+            shared['served'] += 1
+            ctx.count('node-object', 'reused (served %d+ requests before)' % (10 * ((shared['served'] - 1) // 10)))
         got = f"{issued} {','.join(sleeps) or '-'} {out}"
         retried = issued > 1
         blocked = any(SYM[n][1] >= 500 for n in c[:issued]) and not all(spec_transient(SYM[n], k) for k, n in enumerate(c[:issued]))
@@ -337,6 +346,15 @@ def run(ctx):
             def fails(cand):
                 i2, s2, _, r2 = impl_run(cand)
                 return spec_check(cand, i2, s2, r2) is not None
+            if use_shared and not fails(c):
+                # only wrong on a node object that served other requests before: report the case as found
+                key = 'node-reuse:responses=' + ','.join(c)
+                if key not in seen_fail:
+                    seen_fail.add(key)
+                    ctx.violation(key, f'{c} on an RpcNode that had served {shared["served"] - 1} requests: {bad} (observed: {issued} requests, sleeps {sleeps}, {out}); '
+                                       'the same responses on a fresh RpcNode are handled correctly',
+                                  {'responses': c, 'earlier_requests_on_the_node': shared['served'] - 1, 'observed': {'requests': issued, 'sleeps_ms': sleeps, 'outcome': out}})
+                continue
             small = shrink(c, fails)
             key = 'responses=' + ','.join(small)
             if key not in seen_fail:
